@@ -72,8 +72,9 @@ WellFormed(p) ==
 RowType(l, r) == IF BRIsFinite(l) /\ BRIsFinite(r) THEN (IF l = r THEN 1 ELSE 3)
                  ELSE IF BRIsFinite(r) THEN 0 ELSE 2
 \* SoPlexBase::RangeType: 0 FREE, 1 LOWER, 2 UPPER, 3 BOXED, 4 FIXED
-RangeType(l, u) == IF BRIsFinite(l) THEN (IF BRIsFinite(u) THEN (IF l = u THEN 4 ELSE 3) ELSE 1)
-                   ELSE IF BRIsFinite(u) THEN 2 ELSE 0
+\* "has a lower bound" means l > -inf, "has an upper bound" u < +inf (a degenerate upper bound -inf still is an upper bound)
+RangeType(l, u) == IF l # "-inf" THEN (IF u # "inf" THEN (IF l = u THEN 4 ELSE 3) ELSE 1)
+                   ELSE IF u # "inf" THEN 2 ELSE 0
 
 -----------------------------------------------------------------------------
 \* additions (implicit creation of the other dimension: LPColBase() = obj 0, [0, inf); LPRowBase() = [0, inf))
